@@ -79,14 +79,15 @@ class Rec(Relay):
         return None
 
 
-def run_history(ops, target, d):
+def run_history(ops, target, d, use_tmp=True):
     """ops: list of (op, args) with symbolic message numbers; returns event list"""
     shutil.rmtree(d, ignore_errors=True)
     for s in ('env', 'meta', 'tmp'):
         os.makedirs(os.path.join(d, s))
     fx = Fx()
     fx.target = target
-    st = DiskStorage(os.path.join(d, 'env'), os.path.join(d, 'meta'), os.path.join(d, 'tmp'))
+    tmpd = os.path.join(d, 'tmp') if use_tmp else None     # None: the documented default (system temp directory)
+    st = DiskStorage(os.path.join(d, 'env'), os.path.join(d, 'meta'), tmpd)
     ev, ids, raw = [], {}, {}
     crashed = None
     try:
@@ -123,7 +124,7 @@ def run_history(ops, target, d):
         fx.restore()
     neffects = fx.n
     # ---- restart: fresh storage, then a fresh queue
-    st2 = DiskStorage(os.path.join(d, 'env'), os.path.join(d, 'meta'), os.path.join(d, 'tmp'))
+    st2 = DiskStorage(os.path.join(d, 'env'), os.path.join(d, 'meta'), tmpd)
     rec = {'t': 'recover', 'load_ok': True, 'listed': [], 'unknown': 0, 'unknown_ok': True, 'gets': [], 'attempted': []}
     try:
         loaded = list(st2.load())
@@ -151,7 +152,7 @@ def run_history(ops, target, d):
     # a fresh queue resumes retrying what it finds
     vt.CLOCK.reset(1000.0)
     attempted = []
-    st3 = DiskStorage(os.path.join(d, 'env'), os.path.join(d, 'meta'), os.path.join(d, 'tmp'))
+    st3 = DiskStorage(os.path.join(d, 'env'), os.path.join(d, 'meta'), tmpd)
     q = Queue(st3, Rec(attempted, raw))
     q.start()
     for _ in range(60):
@@ -210,19 +211,25 @@ def main():
     f = open(out, 'w')
     stats = {'executions': 0, 'histories': 0, 'crash_points': 0}
     d = os.path.join(WORK, 'c04disk', 'w%d_%d' % (os.getpid(), shard))
+    import tempfile
+    systmp = os.path.join(WORK, 'c04disk', 'systmp_%d_%d' % (os.getpid(), shard))
+    os.makedirs(systmp, exist_ok=True)
+    tempfile.tempdir = systmp          # where DiskStorage(tmp_dir=None) puts its temp files during this run
     n = 0
-    for h in range(3 if quick else 40):
+    for h in range(4 if quick else 40):
         ops = gen_history(rnd, rnd.randint(2, 5 if quick else 7))
-        ev, neff, nids = run_history(ops, None, d)       # dry run: count the effects
+        use_tmp = h % 2 == 0
+        ev, neff, nids = run_history(ops, None, d, use_tmp)       # dry run: count the effects
         stats['histories'] += 1
         for target in range(1, neff + 2):
-            ev, _, nids = run_history(ops, target if target <= neff else None, d)
+            ev, _, nids = run_history(ops, target if target <= neff else None, d, use_tmp)
             stats['executions'] += 1
             stats['crash_points'] += 1 if target <= neff else 0
             kind = [e['kind'] for e in ev if e['t'] == 'crash']
-            f.write(json.dumps({'id': shard + n * nshards, 'cls': 'crash-' + (kind[0] if kind else 'none'), 'nids': max(1, nids),
+            f.write(json.dumps({'id': shard + n * nshards, 'cls': 'crash-' + (kind[0] if kind else 'none') + ('' if use_tmp else '-notmpdir'), 'nids': max(1, nids),
                                 'ev': ev}, separators=(',', ':')) + '\n')
             n += 1
+    shutil.rmtree(systmp, ignore_errors=True)
     f.write(json.dumps({'summary': stats}) + '\n')
     f.close()
 
